@@ -158,7 +158,9 @@ func pMarshalTo(t *pty, v *pval, l int) {
 	emit("p.mto", fmt.Sprintf("%s|%s|%d", t.String(), v.String(), l), impl, orc)
 }
 
-func pDecode(t *pty, b []byte) {
+func pDecode(t *pty, b []byte) { pDecodeExpect(t, b, "-") }
+
+func pDecodeExpect(t *pty, b []byte, expect string) {
 	if !mine() {
 		skip()
 		return
@@ -170,7 +172,117 @@ func pDecode(t *pty, b []byte) {
 		}
 		return t.fromGo(y.Elem()).canon()
 	})
-	emit("p.dec", t.String()+"|"+hexs(b), impl, "-")
+	emit("p.dec", t.String()+"|"+hexs(b), impl, expect)
+}
+
+// refScan is an independent transcription of the protobuf wire format at field level: the top-level fields of b as
+// (number, wire type, payload) or the reason why b is not a sequence of fields. status: ok, trunc (input ends inside
+// a field), invalid (10-byte varint overflow, group or reserved wire types), lenient (a field number protobuf does
+// not allow, 0 or above 2^29-1, which the package is free to accept or reject)
+func refScan(b []byte) (string, string) {
+	var sb strings.Builder
+	status := "ok"
+	uv := func() (uint64, bool, bool) { // value, complete, overflow
+		var x uint64
+		for i := 0; i < len(b); i++ {
+			c := b[i]
+			if i == 9 && c > 1 {
+				return 0, true, true
+			}
+			x |= uint64(c&0x7f) << (7 * uint(i))
+			if c < 0x80 {
+				b = b[i+1:]
+				return x, true, false
+			}
+			if i == 9 {
+				return 0, true, true
+			}
+		}
+		return 0, false, false
+	}
+	for len(b) > 0 {
+		tag, complete, ovf := uv()
+		if ovf {
+			return "", "invalid"
+		}
+		if !complete {
+			return "", "trunc"
+		}
+		f, wt := tag>>3, tag&7
+		if f == 0 || f >= 1<<29 {
+			status = "lenient"
+		}
+		var payload []byte
+		switch wt {
+		case 0:
+			start := b
+			_, complete, ovf := uv()
+			if ovf {
+				return "", "invalid"
+			}
+			if !complete {
+				return "", "trunc"
+			}
+			payload = start[:len(start)-len(b)]
+		case 1:
+			if len(b) < 8 {
+				return "", "trunc"
+			}
+			payload, b = b[:8], b[8:]
+		case 5:
+			if len(b) < 4 {
+				return "", "trunc"
+			}
+			payload, b = b[:4], b[4:]
+		case 2:
+			l, complete, ovf := uv()
+			if ovf {
+				return "", "invalid"
+			}
+			if !complete || uint64(len(b)) < l {
+				return "", "trunc"
+			}
+			payload, b = b[:l], b[l:]
+		default:
+			return "", "invalid"
+		}
+		fmt.Fprintf(&sb, "%d:%d:%s ", f, wt, hexs(payload))
+	}
+	return "ok " + sb.String(), status
+}
+
+// pScan: proto.Scan (and therefore proto.Parse) on any byte string: the fields enumerated or an error, never a panic
+func pScan(b []byte) {
+	if !mine() {
+		skip()
+		return
+	}
+	b = append(make([]byte, 0, len(b)), b...) // exact capacity: an out-of-range slice cannot hide in spare capacity
+	trace("p.scan", hexs(b))
+	impl := guarded(func() string {
+		var sb strings.Builder
+		err := proto.Scan(b, func(f proto.FieldNumber, t proto.WireType, v proto.RawValue) (bool, error) {
+			fmt.Fprintf(&sb, "%d:%d:%s ", uint64(f), int(t), hexs(v))
+			return true, nil
+		})
+		if err != nil {
+			return "err"
+		}
+		return "ok " + sb.String()
+	})
+	list, status := refScan(b)
+	oracle := "-"
+	switch status {
+	case "ok":
+		oracle = list
+	case "trunc", "invalid":
+		oracle = "err"
+	default:
+		if strings.HasPrefix(impl, "panic") {
+			oracle = "nopanic"
+		}
+	}
+	emit("p.scan", hexs(b), impl, oracle)
 }
 
 func protoGen() *pgen { return &pgen{maxDepth: 3, allowRaw: true, allowMap: true, bigNumber: false} }
@@ -291,10 +403,20 @@ func c07() {
 			continue
 		}
 		pDecode(t, b)
+		pScan(b)
+		// the value the encoding decodes to: inserting unknown fields must not change it
+		base := guarded(func() string {
+			y := reflect.New(t.goType())
+			if err := proto.Unmarshal(b, y.Interface()); err != nil {
+				return "err"
+			}
+			return t.fromGo(y.Elem()).canon()
+		})
 		// every prefix
 		if len(b) <= 200 {
 			for l := 0; l < len(b); l++ {
 				pDecode(t, b[:l])
+				pScan(b[:l])
 			}
 		}
 		// mutations
@@ -313,6 +435,7 @@ func c07() {
 				m[p] = pick([]byte{0xff, 0x7f, 0x80, 0x00, 0x01})
 			}
 			pDecode(t, m)
+			pScan(m)
 		}
 		// unknown fields of every wire type inserted at the front, the end and between top-level fields
 		unknown := [][]byte{
@@ -339,11 +462,22 @@ func c07() {
 					continue
 				}
 				m := append(append(append([]byte(nil), b[:p]...), u...), b[p:]...)
-				pDecode(t, m)
+				pDecodeExpect(t, m, base)
+				pScan(m)
 			}
 		}
 		// random bytes
 		pDecode(t, rndBytes(24))
+		pScan(rndBytes(24))
+		// length prefixes that point just beyond the end, with the prefix itself 1..3 bytes long
+		for _, l := range []int{0, 1, 2, 127, 128, 129, 300} {
+			body := rndBytes(l)
+			f := proto.AppendVarlen(nil, proto.FieldNumber(1+rndn(40)), body)
+			for cut := 1; cut <= 3 && cut <= len(f); cut++ {
+				pScan(f[:len(f)-cut])
+			}
+			pScan(f)
+		}
 	}
 	_ = hex.EncodeToString
 }
